@@ -411,6 +411,15 @@ def run(tier, replay=None):
             prefixes.add(k[:i])
     maximal = [hists[k] for k in sorted(keys - prefixes, key=repr)]
 
+    # the thorough dump has tens of thousands of maximal histories: all of them are checked by TLC in the model, a
+    # seeded sample of them (every history of the quick bound included) is replayed on the real endpoints
+    n_maximal = len(maximal)
+    cap = 2500
+    if len(maximal) > cap:
+        short = [m for m in maximal if len(m[0]) <= 4]
+        rest = [m for m in maximal if len(m[0]) > 4]
+        rnd.shuffle(rest)
+        maximal = short + rest[:max(0, cap - len(short))]
     traces = []      # (meta, lines, full_log)
     scales = [1] if quick else [1, 4096]
     n_model_match = 0
@@ -478,7 +487,7 @@ def run(tier, replay=None):
     return ctx.finish(coverage={
         'states': mc.distinct, 'transitions': mc.generated,
         'traces_validated_against_impl': len(traces),
-        'model_histories_replayed': len(maximal),
+        'model_histories_replayed': len(maximal), 'model_histories_maximal': n_maximal,
         'history_dump_states': res.distinct,
         'model_line_exact_match': n_model_match, 'model_line_compared': n_model_cmp,
         'trace_validation_states': stats['states'],
